@@ -172,6 +172,8 @@ def one_recording(c, nsub, req, stem_in, stem_out, in_blocks, bpf_in, ncards, bl
         want_blocks = n_in if req[1] is None else min(req[1], n_in)
     all_cs = []
     for rec in range(c['recordings']):
+        # (sub-box `flip`) the second recording of the same backend uses the OTHER digitiser setting
+        dgz = bool(c['digitize']) != bool(c.get('flip') and rec == 1)
         del reads[:]
         del src.log[:]
         for row in dig + rq:
@@ -180,7 +182,7 @@ def one_recording(c, nsub, req, stem_in, stem_out, in_blocks, bpf_in, ncards, bl
         for fn in guppi.list_files(stem_out):
             os.remove(fn)
         try:
-            be.record(output_file_stem=stem_out, header_dict={}, digitize=c['digitize'], load_template=bool(c.get('template')), verbose=False, **kw)
+            be.record(output_file_stem=stem_out, header_dict={}, digitize=dgz, load_template=bool(c.get('template')), verbose=False, **kw)
         except Exception as e:
             V('record_raised', '%s recording#%d: %s: %s' % (tag, rec, type(e).__name__, e))
             return False
@@ -242,7 +244,7 @@ def one_recording(c, nsub, req, stem_in, stem_out, in_blocks, bpf_in, ncards, bl
                         V('no_estimate', '%s: no channelised-noise estimate after a recording' % tag)
                         return False
                     stds0[a][p] = np.array(fbs[a][p].channelized_stds, copy=True)
-                exp_cs = stds0[a][p] * (dig[a][p].target_std if c['digitize'] else 1.0)
+                exp_cs = stds0[a][p] * (dig[a][p].target_std if dgz else 1.0)
                 # "scaled as if embedded in unit-variance noise": the estimate the gain is built on must be the channelised
                 # deviation of unit-variance noise for THIS filterbank (window included), which follows from the definition.
                 # (sampling error of the estimate: 1/sqrt(2 n) relative, n = factor * channels; acceptance band >= 7 sigma)
@@ -256,7 +258,7 @@ def one_recording(c, nsub, req, stem_in, stem_out, in_blocks, bpf_in, ncards, bl
                     return False
                 # the synthetic stream through digitiser and filterbank: FIR+DFT definition over the WHOLE observed
                 # stream of this recording (nothing about caches / sub-blocks assumed)
-                if c['digitize']:
+                if dgz:
                     pfb_in = np.concatenate([cl['q'] for cl in dig[a][p].calls])
                 else:
                     pfb_in = np.concatenate([arr[a][p] for _, _, arr in src.log])
@@ -345,7 +347,7 @@ def one_recording(c, nsub, req, stem_in, stem_out, in_blocks, bpf_in, ncards, bl
         # bit-identical for a given antenna/polarisation across sub-blocks, blocks and recordings
         by = {}
         for rec, a, p, j, cs in all_cs:
-            by.setdefault((a, p), []).append(cs)
+            by.setdefault((a, p) if not c.get('flip') else (rec, a, p), []).append(cs)
         for k_, lst in by.items():
             if any(not np.array_equal(x, lst[0]) for x in lst):
                 V('gain_not_stationary', '%s: synthetic gain differs between sub-blocks/blocks/recordings for antenna/pol %s' % (tag, k_))
@@ -436,6 +438,15 @@ def run(ctx):
                 cases.append(dict(bits=bits, npol=1, nants=1, directio=0, aligned=False, lazy='default', window=window,
                                   layout=[2, 2], content='tone', digitize=digitize, T=4, nchans=4, start_chan=0,
                                   recordings=1, seed=ctx.seed))
+    # sub-box: the second recording of a backend with the other digitiser setting
+    for digitize in (True, False):
+        for content in ('tone',):
+            cases.append(dict(bits=8, npol=2, nants=1, directio=0, aligned=False, lazy=False, flip=True,
+                              layout=[3, 2], content=content, digitize=digitize, T=4, nchans=4, start_chan=0,
+                              recordings=2, seed=ctx.seed))
+            cases.append(dict(bits=8, npol=1, nants=1, directio=0, aligned=False, lazy=True, flip=True,
+                              layout=[2, 2], content=content, digitize=digitize, T=4, nchans=4, start_chan=0,
+                              recordings=2, seed=ctx.seed))
     # sub-box: a different window function per stream (2-D list of filterbanks), estimates left to the library
     for windows, npol, nants in ((['hamming', 'boxcar'], 2, 1), (['boxcar', 'hann'], 2, 1), (['hann', 'hamming'], 1, 2)):
         for digitize in (True, False):
